@@ -531,8 +531,30 @@ func (c *glCtx) callMulti(call *ast.CallExpr, n int) []string {
 	}
 	if ext, ok := glExterns[qn]; ok {
 		var args []string
+		if ext.withRecv {
+			se, ok := ast.Unparen(call.Fun).(*ast.SelectorExpr)
+			if !ok {
+				c.fail(call, "extern method expression")
+			}
+			args = append(args, c.expr(se.X))
+		}
 		for _, a := range call.Args {
 			args = append(args, c.expr(a))
+		}
+		if ext.monadic {
+			// (value, error) of the Go function: in an errors-as-data caller the thrown error comes back as a value
+			esig := cf.Type().(*types.Signature)
+			z, ok := c.g.zero(esig.Results().At(0).Type())
+			if !ok {
+				c.fail(call, "zero value of the extern result")
+			}
+			t := c.fresh("t")
+			if c.errData {
+				c.emit("let %s ← Go.catchErr (%s %s) %s", t, ext.param, strings.Join(args, " "), z)
+				return []string{t + ".1", t + ".2"}
+			}
+			c.emit("let %s ← %s %s", t, ext.param, strings.Join(args, " "))
+			return []string{t}
 		}
 		if n != 1 {
 			c.fail(call, "extern arity")
@@ -840,7 +862,7 @@ func (c *glCtx) stdlib(qn string, call *ast.CallExpr, n int) ([]string, bool) {
 		t := c.fresh("t")
 		c.emit("let %s := Go.uvarint %s", t, c.expr(call.Args[0]))
 		return []string{t + ".1", t + ".2"}, true
-	case "io.ReaderAt.ReadAt", "io.SectionReader.ReadAt":
+	case "io.ReaderAt.ReadAt", "io.SectionReader.ReadAt", "os.File.ReadAt":
 		// an io.ReaderAt is a function (len, off) ↦ (bytes read, error); the bytes land at the front of the buffer
 		if !c.errData {
 			c.fail(call, "io.ReaderAt.ReadAt outside an errors-as-data function")
